@@ -189,6 +189,103 @@ Theorem to_map_faithful (ps : list (bytes * msg)) :
   to_map (mapm (flat blob (fun v => v) ps)) = ROk (set_all ps []).
 Proof. unfold to_map, mapm. cbn [is_map mtyp mvals]. cbn. rewrite even_len_flat. apply to_map_vals_flat. Qed.
 
+(** ---- string-encoded integers are read in base ten, whatever their spelling ----
+    optional sign, at least one digit, digits only: leading zeros are just zeros (no octal), no 0x / 0b / 0o
+    prefixes, no '_' separators, no blanks *)
+Definition dec_value (ds : bytes) : N := fold_left (fun a c => a * 10 + (c - 48)) ds 0.
+
+Lemma digits_val_all : forall ds a, Forall (fun c => is_digit c = true) ds ->
+  digits_val a ds = Some (fold_left (fun a c => a * 10 + (c - 48)) ds a).
+Proof.
+  induction ds as [|c r IH]; intros a H; cbn [digits_val fold_left]; [reflexivity|].
+  inversion H as [|? ? Hc Hr]; subst. rewrite Hc. now apply IH.
+Qed.
+
+Lemma digits_val_bad : forall ds a c, In c ds -> is_digit c = false -> digits_val a ds = None.
+Proof.
+  induction ds as [|d r IH]; intros a c Hin Hc; [contradiction|]. cbn [digits_val].
+  destruct (is_digit d) eqn:Ed; [|reflexivity]. destruct Hin as [->|Hin]; [congruence|]. now apply (IH _ c).
+Qed.
+
+Definition in_int64 (z : Z) : bool := (int64_min <=? z)%Z && (z <=? int64_max)%Z.
+
+(** sign: None, Some false = '+', Some true = '-' *)
+Definition sign_bytes (sg : option bool) : bytes := match sg with None => [] | Some false => [43] | Some true => [45] end.
+Definition signed (sg : option bool) (n : N) : Z := match sg with Some true => (- Z.of_N n)%Z | _ => Z.of_N n end.
+
+Theorem parse_int10_decimal sg ds : ds <> [] -> Forall (fun c => is_digit c = true) ds ->
+  parse_int10 (sign_bytes sg ++ ds) = if in_int64 (signed sg (dec_value ds)) then Some (signed sg (dec_value ds)) else None.
+Proof.
+  intros Hne Hd. unfold parse_int10, dec_value, in_int64.
+  destruct sg as [[|]|]; cbn [sign_bytes app signed].
+  - cbn [N.eqb Pos.eqb]. destruct ds as [|c r]; [contradiction|]. rewrite digits_val_all by exact Hd. reflexivity.
+  - cbn [N.eqb Pos.eqb]. destruct ds as [|c r]; [contradiction|]. rewrite digits_val_all by exact Hd. reflexivity.
+  - destruct ds as [|c r]; [contradiction|]. inversion Hd as [|? ? Hc _]; subst.
+    destruct (digit_not_sign c Hc) as [-> ->]. rewrite digits_val_all by exact Hd. reflexivity.
+Qed.
+
+(** anything else is rejected: nothing after the sign, or a byte that is not a digit *)
+Theorem parse_int10_rejects sg body :
+  (body = [] \/ exists c, In c body /\ is_digit c = false) ->
+  (sg = None -> match body with c :: _ => (c =? 45) = false /\ (c =? 43) = false | [] => True end) ->
+  parse_int10 (sign_bytes sg ++ body) = None.
+Proof.
+  intros Hb Hs. unfold parse_int10.
+  assert (G : match body with [] => @None Z | _ :: _ => match digits_val 0 body with Some n => None | None => None end end = None
+              \/ True) by now right. clear G.
+  destruct sg as [[|]|]; cbn [sign_bytes app].
+  - cbn [N.eqb Pos.eqb]. destruct Hb as [->|(c & Hin & Hc)]; [reflexivity|].
+    destruct body as [|x r]; [contradiction|]. now rewrite (digits_val_bad _ 0 c Hin Hc).
+  - cbn [N.eqb Pos.eqb]. destruct Hb as [->|(c & Hin & Hc)]; [reflexivity|].
+    destruct body as [|x r]; [contradiction|]. now rewrite (digits_val_bad _ 0 c Hin Hc).
+  - destruct Hb as [->|(c & Hin & Hc)]; [reflexivity|].
+    destruct body as [|x r]; [contradiction|]. destruct (Hs eq_refl) as [-> ->].
+    now rewrite (digits_val_bad _ 0 c Hin Hc).
+Qed.
+
+(** the integer-reading accessors on strings with a known decimal reading (any spelling) … *)
+Theorem int_slice_spelled (xs : list (bytes * Z)) :
+  Forall (fun sz => fst sz <> [] /\ parse_int10 (fst sz) = Some (snd sz)) xs ->
+  as_int_slice (arr (map (fun sz => blob (fst sz)) xs)) = ROk (map snd xs).
+Proof.
+  intro H. unfold as_int_slice. cbn [to_array arr is_array mtyp mvals rbind]. cbn.
+  apply mapM_map. intros [s z] Hin. rewrite Forall_forall in H. destruct (H _ Hin) as [Hne Hp]. cbn [fst snd blob mstr] in *.
+  destruct s; [contradiction|]. now rewrite Hp.
+Qed.
+
+Theorem int_map_spelled (ps : list (bytes * (bytes * Z))) t : (t = tArray \/ t = tSet \/ t = tMap) ->
+  Forall (fun kv => fst (snd kv) <> [] /\ parse_int10 (fst (snd kv)) = Some (snd (snd kv))) ps ->
+  as_int_map (MArr t (flat blob (fun sz => blob (fst sz)) ps) None) = ROk (set_all (map (fun kv => (fst kv, snd (snd kv))) ps) []).
+Proof.
+  intros Ht Hr. unfold as_int_map, as_int_map_with.
+  set (vs := flat blob (fun sz : bytes * Z => blob (fst sz)) ps).
+  assert (E : msg_error (MArr t vs None) = None) by (destruct Ht as [-> |[-> | ->]]; reflexivity).
+  assert (M : map_or_array (MArr t vs None) = true) by (destruct Ht as [-> |[-> | ->]]; reflexivity).
+  rewrite E, M. cbn [mvals]. subst vs. rewrite even_len_flat. cbn [andb].
+  rewrite (pair_loop_flat _ (fun m (kv : bytes * (bytes * Z)) => mset (fst kv) (snd (snd kv)) m)).
+  - f_equal. unfold set_all. generalize (@nil (bytes * Z)). induction ps as [|p r IH]; intro acc; [reflexivity|].
+    cbn [map fold_left fst snd]. inversion Hr; subst. now apply IH.
+  - intros [k [s z]] st Hin. rewrite Forall_forall in Hr. destruct (Hr _ Hin) as [Hne Hp]. cbn [fst snd] in *.
+    change (is_str_typ (blob k)) with true. cbn iota. cbn [blob mstr]. destruct s; [contradiction|]. now rewrite Hp.
+Qed.
+
+(** … and on a string that is not a decimal integer: a number error, never a value *)
+Theorem int_accessors_reject s k t : s <> [] -> parse_int10 s = None -> (t = tArray \/ t = tSet \/ t = tMap) ->
+  as_int64 (blob s) = RErr ENum /\ as_int_slice (arr [blob s]) = RErr ENum /\
+  as_int_map (MArr t [blob k; blob s] None) = RErr ENum.
+Proof.
+  intros Hne Hp Ht. repeat split.
+  - unfold blob. rewrite as_int64_str by now left. now rewrite Hp.
+  - unfold as_int_slice. cbn. destruct s; [contradiction|]. now rewrite Hp.
+  - destruct Ht as [-> |[-> | ->]]; unfold as_int_map, as_int_map_with; cbn; destruct s; try contradiction; now rewrite Hp.
+Qed.
+
+(** the code before the repair read AsIntMap values with base-prefix detection: "0100" was 64 *)
+Lemma int_map_before_fix_octal (pi0 : bytes -> option Z) : pi0 (b "0100") = Some 64%Z ->
+  as_int_map_before_fix pi0 (arr [blob (b "mode"); blob (b "0100")]) = ROk [(b "mode", 64%Z)] /\
+  as_int_map (arr [blob (b "mode"); blob (b "0100")]) = ROk [(b "mode", 100%Z)].
+Proof. intro H. unfold as_int_map_before_fix, as_int_map, as_int_map_with. cbn in H |- *. rewrite H. split; reflexivity. Qed.
+
 (** ---- everything that involves floats or the base-0 integer parser: for any environment in which the
     server's number formatting is read back by the library parser ---- *)
 Section WithEnv.
@@ -196,7 +293,6 @@ Variable e : env.
 Variable fmt : N -> bytes.                                     (* how the server prints a double *)
 Hypothesis fmt_parse : forall f, pf e (fmt f) = (f, true).     (* strconv.ParseFloat reads it back *)
 Hypothesis fmt_nonempty : forall f, fmt f <> [].
-Hypothesis pi0_print : forall z, (int64_min <= z <= int64_max)%Z -> pi0 e (print_Z z) = Some z.
 
 Definition dbl (f : N) : msg := MStr tFloat (fmt f) None.
 (** a double: RESP3 double or RESP2 bulk string *)
@@ -223,10 +319,10 @@ Qed.
 (** int maps: values as RESP3 integers or decimal strings *)
 Theorem int_map_faithful (ps : list (bytes * (bool * Z))) t : (t = tArray \/ t = tSet \/ t = tMap) ->
   Forall (fun kv => (int64_min <= snd (snd kv) <= int64_max)%Z) ps ->
-  as_int_map e (MArr t (flat blob (fun bz => enc_int (fst bz) (snd bz)) ps) None) =
+  as_int_map (MArr t (flat blob (fun bz => enc_int (fst bz) (snd bz)) ps) None) =
   ROk (set_all (map (fun kv => (fst kv, snd (snd kv))) ps) []).
 Proof.
-  intros Ht Hr. unfold as_int_map.
+  intros Ht Hr. unfold as_int_map, as_int_map_with.
   set (vs := flat blob (fun bz => enc_int (fst bz) (snd bz)) ps).
   assert (E : msg_error (MArr t vs None) = None) by (destruct Ht as [-> |[-> | ->]]; reflexivity).
   assert (M : map_or_array (MArr t vs None) = true) by (destruct Ht as [-> |[-> | ->]]; reflexivity).
@@ -238,7 +334,7 @@ Proof.
     change (is_str_typ (blob k)) with true. cbn iota.
     destruct s; cbn [enc_int].
     + cbn [blob mstr]. destruct (print_Z z) eqn:P; [now apply print_Z_nonempty in P|]. rewrite <- P.
-      now rewrite pi0_print.
+      now rewrite parse_print_int.
     + reflexivity.
 Qed.
 
